@@ -13,17 +13,20 @@
    specification side); `prod_decode` -- the model of TTYEventDecoder: the tokeniser
    specification `munch` of C03 over the regenerated production automaton (Gen/ProdDFA.v) with
    the payload decoders of Decoder/EvModel.v and the key names of Gen/C04Keys.v;
-   `prod_wf r` = `wf r` and the automaton is in a terminal accepting state after `print r`
-   (self-delimiting).  Statements only; proofs in Decoder/C04Main.v and the files it imports.
+   `prod_wf r` = `wf r` at the regenerated name tables: decided on the specification side only
+   (parameter bounds; for table keys: in the table and not one of the six bare ESC-prefixes);
+   that the automaton is in a terminal accepting state after `print r` (self-delimiting) is a
+   THEOREM (C04_self_delimiting), not a hypothesis.  Statements only; proofs in Decoder/C04Main.v and the files it imports.
 
-   `proved_family r` is true for every report except `RSgr`: an SGR sequence denotes a face
-   modification, which is characterised by its meaning (C04_sgr_event, via the reference SGR
-   machine of C06) rather than by one canonical record; hence the `_partial` suffix of the two
-   headline theorems, whose statement for all other families is the full one. *)
+   `proved_family r` is true for every report except: `RSgr` (an SGR sequence denotes a face
+   modification, characterised by its meaning: C04_sgr_event), `RXterm` with a modifier mask >= 8
+   (known finding C04-key-mask: C04_key_mask8_refuted) and `RFaceReport` with one of 7/27/39/49
+   (known finding: C04_face_report_recorded states the recorded behaviour for every well-formed
+   parameter string).  Hence the `_partial` suffix of the two headline theorems. *)
 From Coq Require Import List NArith Bool.
 From SNT Require Import Base.Outcome Automata.DfaData Automata.Tokenizer.
 From SNT Require Import Render.FaceModel Decoder.SgrRef.
-From SNT Require Import Decoder.EvModel Decoder.Printer Decoder.EvProd Decoder.EvProofs Decoder.C04Main.
+From SNT Require Import Decoder.EvModel Decoder.Printer Decoder.EvProd Decoder.EvProofs Decoder.EvFamilies2 Decoder.EvXterm Decoder.C04Main.
 From SNT Require Import Gen.ProdDFA Gen.C04Keys.
 Import ListNotations.
 Local Open Scope N_scope.
@@ -55,16 +58,35 @@ Proof. exact chunking. Qed.
 (* 4. the literal key table (re-checked on the regenerated automaton): every self-delimiting
    sequence of the table decodes to the key the table names *)
 Theorem C04_key_table : forall (w rest : list N),
-  lit_lookup prod_key_table w <> None -> self_delimiting w = true ->
+  lit_lookup prod_key_table w <> None -> bare_prefix w = false ->
   prod_decode (w ++ rest) = (prod_denote (RLit w) :: fst (prod_decode rest), snd (prod_decode rest)).
 Proof. intros w rest Hl Hs. exact (decode_single _ _ rest (single_literal w Hl Hs)). Qed.
 
 (* 4b. the table names the xterm PC-style / VT220-style sequences as the protocol documents do:
-   cursor / editing / function keys with every modifier mask, Alt+letter, Alt+digit, Ctrl+letter *)
-Theorem C04_xterm_keys : forall (k : kname) (mods : N) (alt_form : bool) (rest : list N),
+   cursor / editing / function keys with the modifier masks 0..7 (shift, alt, ctrl), Alt+letter,
+   Alt+digit, Ctrl+letter.  `_upto_mask7`: the documents define every mask below 256 (xterm meta,
+   kitty super / hyper / meta / caps_lock / num_lock) and `wf` admits them, but the library's table
+   stops at 7 -- known finding C04-key-mask, witness C04_key_mask8_refuted *)
+Theorem C04_xterm_keys_upto_mask7 : forall (k : kname) (mods : N) (alt_form : bool) (rest : list N),
+  mods < 8 ->
   wf decmode_all prod_key_table (RXterm k mods alt_form) = true ->
   prod_decode (print (RXterm k mods alt_form) ++ rest) = (EKey k mods :: fst (prod_decode rest), snd (prod_decode rest)).
 Proof. exact xterm_keys_decode. Qed.
+
+Theorem C04_key_mask8_refuted :
+  wf decmode_all prod_key_table (RXterm KUp 8 false) = true
+  /\ print (RXterm KUp 8 false) = [27; 91; 49; 59; 57; 65]
+  /\ fst (prod_decode (print (RXterm KUp 8 false)))
+     = [EKey (KChar 91) 2; EKey (KChar 49) 0; EKey (KChar 59) 0; EKey (KChar 57) 0; EKey (KChar 65) 0].
+Proof. exact xterm_mask8_refuted. Qed.
+
+(* 4b'. coverage: every entry of the library's table is pinned by the reference encoding
+   (C04_xterm_keys_upto_mask7) except 26 entries whose names are the library's own choice:
+   the six introducers, CSI P..S, and rxvt's CSI 7~ / CSI 8~ with their modified forms *)
+Theorem C04_key_table_coverage :
+  forallb (fun e => mem_bytes (fst e) xterm_image || mem_bytes (fst e) trusted_names) prod_key_table = true
+  /\ length trusted_names = 26%nat.
+Proof. exact table_coverage. Qed.
 
 (* 4c. an SGR sequence received as an event: the modification's meaning is the reference SGR
    machine of C06 (the DECRPSS face report is part of C04_single_partial) *)
@@ -74,16 +96,40 @@ Theorem C04_sgr_event : forall (p rest : list N),
             /\ forall r, SgrRef.rapply m r = SgrRef.ref_sgr p r.
 Proof. exact sgr_event_decode. Qed.
 
+(* 4d. every well-formed report is self-delimiting *)
+Theorem C04_self_delimiting : forall r : report,
+  proved_family r = true -> prod_wf r = true -> self_delimiting (print r) = true.
+Proof. exact wf_self_delimiting. Qed.
+
+(* 4e. what DA1 denotes: THE strictly increasing list with the elements of the transmitted one *)
+Theorem C04_da_set : forall l : list N,
+  strictly_increasing (sort_dedup l) = true /\ forall y, In y (sort_dedup l) <-> In y l.
+Proof. exact sort_dedup_spec. Qed.
+
+(* 4f. DECRPSS face report for EVERY well-formed parameter string: the face of the recorded SGR
+   machine (7 / 27 / 39 / 49 ignored -- known finding C04-face-report-inverse = C06-inexpressible seen
+   through events: a terminal in reverse video answering the library's own FaceGet loses REVERSE
+   although Face can carry it); for strings without these parameters this is the reference machine
+   itself and part of C04_single_partial *)
+Theorem C04_face_report_recorded : forall (p rest : list N),
+  sgr_wf p = true ->
+  prod_decode (print (RFaceReport p) ++ rest) = (face_report_recorded p :: fst (prod_decode rest), snd (prod_decode rest)).
+Proof. exact face_report_recorded_decode. Qed.
+
 (* 5. xterm / fixterms modifier convention over the whole table: CSI n ; m ~ and CSI 1 ; m X name
    the key of the unmodified sequence with modifier mask m - 1 *)
 Theorem C04_key_modifiers : forallb mod_entry_ok prod_key_table = true.
 Proof. exact mod_table_ok. Qed.
 
-(* 6. DecMode::from_usize / DecModeStatus::from_usize know every discriminant of their enum *)
+(* 6. DecMode::from_usize / DecModeStatus::from_usize know every discriminant of their enum, and
+   each variant has the number the xterm documents give to the mode of that name (regenerated
+   name/number pairs of src/terminal.rs against Printer.xterm_decmodes / decrpm_statuses) *)
 Theorem C04_tables :
   forallb (fun m => existsb (N.eqb m) decmode_codes) decmode_all = true
-  /\ forallb (fun s => existsb (N.eqb s) decstatus_codes) decstatus_all = true.
-Proof. exact decmode_table_ok. Qed.
+  /\ forallb (fun s => existsb (N.eqb s) decstatus_codes) decstatus_all = true
+  /\ named_tables_agree decmode_named xterm_decmodes = true
+  /\ named_tables_agree decstatus_named decrpm_statuses = true.
+Proof. exact (conj (proj1 decmode_table_ok) (conj (proj2 decmode_table_ok) decmode_names_ok)). Qed.
 
 (* 7. the named ambiguity: CSI 1 ; n R is the modified F3 *)
 Theorem C04_cpr_vs_f3 : forall (n : N) (rest : list N),
@@ -102,14 +148,14 @@ Check C04_concat_partial : forall (rs : list report) (rest : list N),
 
 (* ---- non-vacuity ---- *)
 Definition ex_reports : list report :=
-  [RMouse MWheelUp 5 true false 65534 0; RCursor 0 0; RChar 8364; RLit [27; 91; 49; 53; 59; 54; 126];
-   RDecMode 2004 1; RKittyKey (KF 35) 255; RDevAttrs [1; 2; 62]; RSize 24 80 480 1280;
-   RPaste [104; 105; 226; 130; 172]; RKeyLevel 5; RLit [27; 91; 49; 59; 53; 82]; RXterm (KF 12) 7 false; RXterm KHome 0 true; RColor (TPalette 255) (RGBA 17 34 255 255) Rgb1 true EndBEL; RColor TBg (RGBA 1 128 254 255) Rgb3 false EndST; RKittyImage 7 (Some 3) (Some [69; 78; 79; 69; 78; 84]); RTermcapOk [([84; 78], [120; 116; 101; 114; 109]); ([99; 111], [50; 53; 54])] true; RTermcapFail [[82; 71; 66]] false; RFaceReport [48; 59; 49; 59; 52; 58; 51; 59; 51; 56; 58; 50; 58; 58; 49; 58; 50; 58; 51]].
+  [RMouse 85 true 65534 0; RMouse 128 true 0 0; RCursor 0 0; RChar 8364; RLit [27; 91; 49; 53; 59; 54; 126];
+   RDecMode 2004 1; RKittyKey (KF 35) 255 []; RKittyKey (KChar 97) 1 [Some 65]; RKittyKey (KChar 246) 0 [None; Some 59]; RDevAttrs [62; 1; 2; 6; 2]; RSize 24 80 480 1280;
+   RPaste [104; 105; 226; 130; 172]; RKeyLevel 5; RLit [27; 91; 49; 59; 53; 82]; RXterm (KF 12) 7 false; RXterm KHome 0 true; RColor (TPalette 255) 1 2 15 Rgb1 true EndBEL; RColor TBg 31 2063 4095 Rgb3 false EndST; RColor TFg 33023 0 65535 Rgb4 false EndST; RKittyImage 7 (Some 3) (Some [69; 78; 79; 69; 78; 84]); RTermcapOk [([84; 78], [120; 116; 101; 114; 109]); ([99; 111], [50; 53; 54])] true; RTermcapFail [[82; 71; 66]] false; RFaceReport [48; 59; 49; 59; 52; 58; 51; 59; 51; 56; 58; 50; 58; 58; 49; 58; 50; 58; 51]].
 Example C04_nonvacuous :
   forallb (fun r => proved_family r && prod_wf r) ex_reports = true
   /\ map prod_denote ex_reports
-     = [EMouse MWheelUp 261 65534 0; ECursor 0 0; EKey (KChar 8364) 0; EKey (KF 5) 5; EDecMode 2004 1;
-        EKey (KF 35) 255; EDevAttrs [1; 2; 62]; ESize 24 80 480 1280; EPaste [104; 105; 226; 130; 172];
-        EKeyLevel 5; EKey (KF 3) 4; EKey (KF 12) 7; EKey KHome 0; EColor (TPalette 255) (RGBA 17 34 255 255); EColor TBg (RGBA 1 128 254 255); EKittyImage 7 (Some 3) (Some [69; 78; 79; 69; 78; 84]); ETermcap [([84; 78], Some [120; 116; 101; 114; 109]); ([99; 111], Some [50; 53; 54])]; ETermcap [([82; 71; 66], None)]; EFaceGet (mkFace (Some (RGBA 1 2 3 255)) None 11)]
+     = [EMouse MWheelUp 261 65534 0; ERaw [27; 91; 60; 49; 50; 56; 59; 49; 59; 49; 77]; ECursor 0 0; EKey (KChar 8364) 0; EKey (KF 5) 5; EDecMode 2004 1;
+        EKey (KF 35) 255; EKey (KChar 97) 1; EKey (KChar 246) 0; EDevAttrs [1; 2; 6; 62]; ESize 24 80 480 1280; EPaste [104; 105; 226; 130; 172];
+        EKeyLevel 5; EKey (KF 3) 4; EKey (KF 12) 7; EKey KHome 0; EColor (TPalette 255) (RGBA 17 34 255 255); EColor TBg (RGBA 1 128 255 255); EColor TFg (RGBA 128 0 255 255); EKittyImage 7 (Some 3) (Some [69; 78; 79; 69; 78; 84]); ETermcap [([84; 78], Some [120; 116; 101; 114; 109]); ([99; 111], Some [50; 53; 54])]; ETermcap [([82; 71; 66], None)]; EFaceGet (mkFace (Some (RGBA 1 2 3 255)) None 11)]
   /\ length prod_key_table = 367%nat.
 Proof. split; [vm_compute; reflexivity|]. split; vm_compute; reflexivity. Qed.
